@@ -351,10 +351,24 @@ def _planner(ctx, prog, dual):
     ctx.require(len(pp) == 1, 'the planner function calling dual_rrt_connect')
     pp = pp[0]
     ctx.fn(pp)
-    site = [(bi, t) for bi, t in pp.calls() if cname(callee_name(t)) == 'rrt_to::dual_rrt_connect'][0]
+    site = [(bi, t) for bi, t in pp.calls() if t['callee'].get('resolved') == dual.path or cname(callee_name(t)) == 'rrt_to::dual_rrt_connect'][0]
     bi, t = site
     args = [pp.op_term(a, (bi, None)) for a in t['args']]
-    params = {n: l for l, n in pp.names.items() if 1 <= l <= pp.arg_count}
+    # Roles of the planner's parameters, by what the public plan_rrt(&self, start, goal, kinematics, stop) hands to them at its
+    # one call site (positions of the public signature; parameter names are not relied on).
+    params = {}
+    pr0 = prog.find(suffix='rrt::RRTPlanner::plan_rrt')
+    api = {2: 'start', 3: 'goal', 4: 'kinematics', 5: 'stop'}
+    if len(pr0) == 1 and pr0[0].path != pp.path:
+        for b2, t2 in pr0[0].calls():
+            if t2['callee'].get('resolved') == pp.path:
+                for pos, a in enumerate(t2['args']):
+                    pi = _param_of(pr0[0].op_term(a, (b2, None)))
+                    if pi in api:
+                        params[api[pi]] = pos + 1
+    elif len(pr0) == 1:
+        params = {v: k for k, v in api.items()}
+    ctx.require(set(params) >= {'start', 'goal', 'kinematics', 'stop'}, 'plan_rrt hands start, goal, kinematics and stop to the function that calls dual_rrt_connect')
     # start / goal routed positionally
     ok = _param_of(args[0]) == params.get('start') and _param_of(args[1]) == params.get('goal')
     ctx.check(ok, 'R13.3', 'planner/start-goal', pp.where(bi), pp.path, 'start / goal are not handed to the tree search in this order',
@@ -377,7 +391,8 @@ def _planner(ctx, prog, dual):
                     robot = strip(c[2])
                     vec = strip(c[3])
                     # robot = captured kinematics parameter of the planner
-                    cap_ok = isinstance(robot, tuple) and robot[0] == 'fld' and 'kinematics' in robot[2]
+                    cap_ok = isinstance(robot, tuple) and robot[0] == 'fld' and util.is_param(strip(robot[1]), 1) and \
+                        str(robot[2]).lstrip('*&') == pp.name_of(params['kinematics'])
                     cap_src = [strip(x) for x in caps]
                     cap_ok = cap_ok and any(_param_of(x) == params.get('kinematics') for x in cap_src)
                     # vec derives from closure param 2 through try_from(..).expect / unwrap
@@ -442,14 +457,9 @@ def _planner(ctx, prog, dual):
     if ctx.check(len(pr) == 1, 'R13.3', 'plan_rrt/exists', pp.where(0), pp.path, 'plan_rrt not found'):
         pr = pr[0]
         ctx.fn(pr)
-        ps = {n: l for l, n in pr.names.items() if 1 <= l <= pr.arg_count}
         site = [(bi2, t2) for bi2, t2 in pr.calls() if t2['callee'].get('resolved') == pp.path]
-        ok = False
-        if len(site) == 1:
-            a = [pr.op_term(x, (site[0][0], None)) for x in site[0][1]['args']]
-            pn = {n: i for i, (l, n) in enumerate(sorted((l, n) for l, n in pp.names.items() if 1 <= l <= pp.arg_count))}
-            ok = _param_of(a[pn['start']]) == ps.get('start') and _param_of(a[pn['goal']]) == ps.get('goal') and \
-                _param_of(a[pn['stop']]) == ps.get('stop') and _param_of(a[pn['kinematics']]) == ps.get('kinematics')
+        # exactly one call, and each of start / goal / kinematics / stop reaches exactly one parameter of the planner
+        ok = len(site) == 1 and len(set(params.values())) == 4
         ctx.check(ok, 'R13.3', 'plan_rrt/args', pr.where(site[0][0]) if site else pr.where(0), pr.path, 'plan_rrt must hand (kinematics, start, goal, stop) to the planner unchanged')
 
 
